@@ -200,3 +200,110 @@ Definition filter_verdict (print_query print0 ansi tac sorted : bool) (query : s
       end
     else str_eqb stdout (frame t (filter_parts print_query query body)) in
   (out_ok, code =? exit_status EAccept body).
+
+(* ==== --accept-nth in general: field index expressions and templates over AWK-style or delimiter-cut fields ====
+   (man page: --accept-nth "Define which fields to print on accept. The last delimiter is stripped from the
+   output. ... When you use a template, the trailing delimiter is stripped from each expression ... {n} in
+   template evaluates to the zero-based ordinal index of the line"; FIELD INDEX EXPRESSION) *)
+
+(* fields cut by a literal delimiter (--delimiter STR where STR is not a regular expression): delimiters are
+   found left to right, not overlapping; a field ends with the delimiter that follows it; what comes after the
+   last delimiter is the last field (the empty field when the record ends with a delimiter) *)
+Fixpoint str_fields_fuel (fuel : nat) (sep cur s : str) : list str :=
+  match fuel with
+  | O => [cur ++ s]
+  | S f =>
+    match strip_prefix sep s with
+    | Some rest => (cur ++ sep) :: str_fields_fuel f sep [] rest
+    | None => match s with
+              | [] => [cur]
+              | c :: t => str_fields_fuel f sep (cur ++ [c]) t
+              end
+    end
+  end.
+Definition str_fields (sep s : str) : list str :=
+  match sep with [] => [s] | _ => str_fields_fuel (S (length s)) sep [] s end.
+
+(* fields cut by a delimiter that is one byte of a set (--delimiter '[,;]') or a maximal run of such bytes
+   (--delimiter '[,;]+'): as above, except that nothing follows the last delimiter when the record ends with it *)
+Definition in_set (cs : str) (c : Z) : bool := existsb (fun x => x =? c) cs.
+Fixpoint set_fields_fuel (fuel : nat) (cs : str) (run : bool) (cur s : str) : list str :=
+  match fuel with
+  | O => [cur ++ s]
+  | S f =>
+    match s with
+    | [] => match cur with [] => [] | _ => [cur] end
+    | c :: t =>
+      if in_set cs c then
+        let d := if run then c :: take_while (in_set cs) t else [c] in
+        let rest := if run then drop_while (in_set cs) t else t in
+        (cur ++ d) :: set_fields_fuel f cs run [] rest
+      else set_fields_fuel f cs run (cur ++ [c]) t
+    end
+  end.
+Definition set_fields (cs : str) (run : bool) (s : str) : list str := set_fields_fuel (S (length s)) cs run [] s.
+
+Inductive field_delim :=
+  | FAwk                               (* default: AWK-style *)
+  | FStr (sep : str)                   (* a literal string *)
+  | FSet (cs : str) (run : bool).      (* [cs] resp. [cs]+ *)
+
+Definition fields_of (d : field_delim) (s : str) : list str :=
+  match d with
+  | FAwk => awk_fields s
+  | FStr sep => str_fields sep s
+  | FSet cs run => set_fields cs run s
+  end.
+
+(* a field index expression as the user writes it: N, N..M, N.., ..M, ..  — a pair (b, e) where 0 stands for an
+   omitted bound and N alone is (N, N); negative numbers count from the last field.  It selects the fields
+   number lo .. hi that exist. *)
+Definition fexpr := (Z * Z)%type.
+Definition field_pos (n i : Z) : Z := if i <? 0 then n + 1 + i else i.
+Definition select_fields (fields : list str) (x : fexpr) : list str :=
+  let n := Z.of_nat (length fields) in
+  let lo := Z.max 1 (if fst x =? 0 then 1 else field_pos n (fst x)) in
+  let hi := Z.min n (if snd x =? 0 then n else field_pos n (snd x)) in
+  firstn (Z.to_nat (hi - lo + 1)) (skipn (Z.to_nat (lo - 1)) fields).
+(* a comma-separated list of expressions: the selected fields one after the other *)
+Definition exprs_text (fields : list str) (xs : list fexpr) : str :=
+  concat (map (fun x => concat (select_fields fields x)) xs).
+
+(* "the last delimiter is stripped": ONE delimiter, and only when the text ends with it; then the white space
+   at the end goes too.  Nothing else is removed: the selected fields are printed exactly. *)
+Definition ends_with (suf s : str) : bool :=
+  Nat.leb (length suf) (length s) && str_eqb (skipn (length s - length suf) s) suf.
+Definition strip_last_delim (d : field_delim) (s : str) : str :=
+  trim_right
+    (match d with
+     | FAwk => s
+     | FStr sep => if ends_with sep s then firstn (length s - length sep) s else s
+     | FSet cs false => match rev s with c :: r => if in_set cs c then rev r else s | [] => s end
+     | FSet cs true => rev (drop_while (in_set cs) (rev s))
+     end).
+
+(* decimal notation of an ordinal number *)
+Fixpoint decimal_fuel (fuel n : nat) : str :=
+  match fuel with
+  | O => []
+  | S f => if Nat.ltb n 10 then [48 + Z.of_nat n]
+           else decimal_fuel f (Nat.div n 10) ++ [48 + Z.of_nat (Nat.modulo n 10)]
+  end.
+Definition decimal (n : nat) : str := decimal_fuel (S n) n.
+
+Inductive tpart := TLit (s : str) | TIndex | TFields (xs : list fexpr).
+Inductive accept_expr := AFields (xs : list fexpr) | ATemplate (ps : list tpart).
+
+(* what --accept-nth prints for the record with ordinal number `index` whose output form is s *)
+Definition accept_text (d : field_delim) (a : accept_expr) (index : nat) (s : str) : str :=
+  let fields := fields_of d s in
+  strip_last_delim d
+    (match a with
+     | AFields xs => exprs_text fields xs
+     | ATemplate ps =>
+         concat (map (fun p => match p with
+                               | TLit l => l
+                               | TIndex => decimal index
+                               | TFields xs => strip_last_delim d (exprs_text fields xs)
+                               end) ps)
+     end).
